@@ -1,5 +1,5 @@
 import CstModel.Driver.Core
-import CstModel.Generated.SourceFacts
+import CstModel.Generated.DriverFacts
 namespace Cst.Drv
 
 mutual
@@ -45,7 +45,7 @@ def interOf (s : DState) (slot : Nat) : Option Interner :=
 
 def builderStep (s : DState) : List String → Option (DState × String)
   | ["cache", backend] =>
-    match backendCap SourceFacts.nIndices backend with
+    match backendCap DriverFacts.nIndices backend with
     | none => some (s, "bad-op")
     | some cap =>
       let n := s.caches.size
